@@ -155,7 +155,7 @@ Proof. exact perform_mem_virtio. Qed.
 (* the action of every opcode round-trips for every result kind that opcode returns *)
 Theorem C03_action_roundtrip : forall q minor cap fs a,
   q_unique q < 2 ^ 64 -> cap < 2 ^ 32 ->
-  kind_ok (q_op q) fs = true -> fits q cap fs ->
+  kind_ok (q_op q) fs = true -> reply_fits q cap fs ->
   post_action (q_op q) minor cap (fld q "size") fs = Some a -> action_len a <= cap ->
   exists p, action_msg (q_unique q) a = Some p /\ reply_ok q minor fs p = true.
 Proof. exact post_action_roundtrip. Qed.
@@ -169,7 +169,7 @@ Proof. exact post_action_roundtrip. Qed.
 Theorem C03_roundtrip : forall cfg cap req q fs,
   q_unique q < 2 ^ 64 -> cap < 2 ^ 32 ->
   u32 4 req = q_op q -> u64 8 req = q_unique q -> u32 56 req = fld q "size" ->
-  kind_ok (q_op q) fs = true -> fits q cap fs ->
+  kind_ok (q_op q) fs = true -> reply_fits q cap fs ->
   (2 <= List.length (h_calls (handle cfg FuseDev cap req fs)))%nat ->
   action_len (snd (fst (decide cfg req fs cap))) <= cap ->
   exists p, o_packets (h_outcome (handle cfg FuseDev cap req fs)) = [p] /\
@@ -179,7 +179,7 @@ Proof. exact handle_roundtrip. Qed.
 Theorem C03_roundtrip_virtio : forall cfg cap req q fs,
   q_unique q < 2 ^ 64 -> cap < 2 ^ 32 ->
   u32 4 req = q_op q -> u64 8 req = q_unique q -> u32 56 req = fld q "size" ->
-  kind_ok (q_op q) fs = true -> fits q cap fs ->
+  kind_ok (q_op q) fs = true -> reply_fits q cap fs ->
   (2 <= List.length (h_calls (handle cfg Virtio cap req fs)))%nat ->
   action_len (snd (fst (decide cfg req fs cap))) <= cap ->
   reply_ok q (cfg_minor cfg) fs (o_mem (h_outcome (handle cfg Virtio cap req fs))) = true.
@@ -236,7 +236,7 @@ Example C03_roundtrip_nonvacuous_lookup :
   let q := ex_lookup in let req := encode_req q in let fs := FEntry ex_entry in
   q_unique q < 2 ^ 64 /\ 8192 < 2 ^ 32 /\
   u32 4 req = q_op q /\ u64 8 req = q_unique q /\ u32 56 req = fld q "size" /\
-  kind_ok (q_op q) fs = true /\ fits q 8192 fs /\
+  kind_ok (q_op q) fs = true /\ reply_fits q 8192 fs /\
   Nat.leb 2 (List.length (h_calls (handle ex_cfg FuseDev 8192 req fs))) = true /\
   (action_len (snd (fst (decide ex_cfg req fs 8192))) <=? 8192) = true.
 Proof. vm_compute. repeat split; reflexivity. Qed.
